@@ -156,7 +156,7 @@ def model_lines_for(b: bc.Built, d: bc.WheelDesc, sde: str | None, modname: str,
             ops.append(pack("A", op[1], op[2], op[3], op[4]))
         elif op[0] == "write":
             ops.append(pack("W", op[1], op[2], op[3]))
-    lines = [core.line("brun", di, *ops)]
+    lines = [core.line("brun", di, *ops), core.line("bcsv", d.record_text)]
     items = []
     root = log.project_root
     for ab, _rel, tgt in log.to_add:
@@ -181,7 +181,11 @@ def compare_model(ctx: core.Ctx, sig: Any, b: bc.Built, d: bc.WheelDesc, replies
     log = b.log
     assert log is not None
     real_members = [pack(m["name"], (m["mode"] << 16) | m["attr_low"], m["digest"], m["size"]) for m in d.members]
-    run, plan = replies
+    run, rdr, plan = replies
+    # the model's csv reader (used by theorem record_reads_back) vs Python's csv.reader on the real RECORD text
+    if rdr[0] != "ok" or [r.split(US) for r in rdr[1:]] != d.record_rows:
+        dis += 1
+        ctx.disagree("csv-reader", sig, d.record_rows[-2:], rdr[-2:])
     # (a) replay of the logged operations through the record state machine
     if run[0] != "ok":
         ctx.disagree("record-machine", sig, "built", run)
@@ -303,7 +307,7 @@ def check_project(ctx: core.Ctx, p: gen_project.Project, sde: str | None, stream
                 key = f"{b.kind}/{b.api}:{p.signature()}"
                 for msg in oracle_names(d, *refs[5 * i: 5 * i + 5]):
                     ctx.violate("names:" + msg[:50] + ":" + key, f"{b.kind}/{b.api} wheel of {p.name} {p.version}: {msg}", wit)
-                dis += compare_model(ctx, sig, b, d, replies[3 + 2 * i: 5 + 2 * i])
+                dis += compare_model(ctx, sig, b, d, replies[3 + 3 * i: 6 + 3 * i])
             # names: model vs what the builder computed / wrote
             b0, d0 = built[0]
             mver = header(d0.metadata_headers, "Version")
